@@ -262,6 +262,12 @@ class World(Domain):
         mn = module.name
         if mn == "pysmt.environment" and name == "get_env":
             return True, Prim(lambda i, a, k: self.env, "get_env")
+        if mn == "pysmt.environment" and name == "ENVIRONMENTS_STACK":
+            return True, [self.env]
+        if name in ("get_env", "get_type", "get_free_variables"):
+            r = self.repo.resolve(module, name)
+            if r and r[0] == "func" and r[1].name == "pysmt.environment" and r[2].name == "get_env":
+                return True, Prim(lambda i, a, k: self.env, "get_env")
         if mn == "pysmt.fnode" and name == "_env":
             return True, Prim(lambda i, a, k: self.env, "_env")
         if mn == "pysmt.fnode" and name == "_mgr":
@@ -527,10 +533,42 @@ class World(Domain):
             return True, str(x)
         return False, None
 
+    def _concretise(self, it, v):
+        """Python text of a value whose str() the interpreted program defines, or None."""
+        if isinstance(v, (str, int, Fraction)) and not isinstance(v, Abs):
+            return v
+        if isinstance(v, AObj) and v.cls in self.repo.classes and not self.is_node(v):
+            for nm in ("__str__", "__repr__"):
+                q, f = self.repo.find_method(v.cls, nm)
+                if f is not None:
+                    r = it.call(it.getattr(v, nm), [])
+                    return r if isinstance(r, str) else None
+        if isinstance(v, SymStr):
+            return self.to_text(it, v)
+        return None
+
+    def to_text(self, it, s):
+        """concrete text of a SymStr when every part can be made concrete"""
+        if isinstance(s, str):
+            return s
+        if not isinstance(s, SymStr):
+            return None
+        return getattr(s, "text", None)
+
     def concat_str(self, it, parts):
+        cs = [self._concretise(it, p) for p in parts]
+        if all(isinstance(c, str) for c in cs):
+            return True, "".join(cs)
         return True, SymStr(list(parts))
 
     def format_percent(self, it, fmt, vals):
+        if isinstance(fmt, str) and "%" in fmt:
+            cs = [self._concretise(it, v) for v in vals]
+            if all(c is not None for c in cs):
+                try:
+                    return True, fmt % tuple(cs)
+                except (TypeError, ValueError):
+                    pass
         if fmt == "#b%s" and len(vals) == 1 and isinstance(vals[0], (SymBits, str)):
             v = vals[0]
             if isinstance(v, str):
